@@ -414,6 +414,18 @@ func concBody(x *Exec, raw json.RawMessage) {
 	if has(p.Oracles, "noclobber") {
 		checkNoClobber(x, r, p, recs, contents)
 	}
+	if has(p.Oracles, "producer-order") {
+		checkProducerOrder(x, r, p, recs)
+	}
+	if has(p.Oracles, "readbuf-drained") {
+		// C17: every successfully recorded read is delivered once the cache is quiescent and maintenance runs
+		c.CleanUp()
+		r.RunDeferred(0)
+		x.Count("readbuf-checks")
+		if st := c.VerifStatus(); st.ReadBufferLen != 0 {
+			x.Fail("reads-stuck-in-buffer", "readBuffer@"+p.Label, "after quiescence and CleanUp the read buffer still holds %d recorded reads: they are never delivered", st.ReadBufferLen)
+		}
+	}
 	if has(p.Oracles, "volunteered") {
 		checkVolunteered(x, r, p, recs, contents)
 	}
@@ -520,6 +532,27 @@ func concBody(x *Exec, raw json.RawMessage) {
 			physical[n.Key] = n.Value
 		}
 		checkLedger(x, r, p, append(append([]opRec{}, setupRecs...), flat(recs)...), physical)
+	}
+
+	// last (it changes the cache): everything that is still present is invalidated; afterwards every value ever written
+	// has been reported exactly once to each handler (an entry whose node the policies have lost, or that was notified
+	// early, shows here)
+	if has(p.Oracles, "ledger") && !p.Cfg.NoHandlers {
+		c.InvalidateAll()
+		r.RunDeferred(0)
+		c.CleanUp()
+		r.RunDeferred(0)
+		left := map[int]int{}
+		for _, n := range c.VerifRawTable() {
+			left[n.Key] = n.Value
+		}
+		if len(left) > 0 {
+			x.Fail("invalidate-all-incomplete", "InvalidateAll@"+p.Label, "after InvalidateAll and CleanUp at quiescence the table still holds %v", left)
+		}
+		x.Count("ledger-after-invalidateall")
+		q := p
+		q.Label = p.Label + " (after a final InvalidateAll)"
+		checkLedger(x, r, q, append(append(append([]opRec{}, setupRecs...), flat(recs)...), opRec{op: "invall"}), left)
 	}
 
 	// last (it changes the cache): the bound "including after the maximum is lowered at run time". The maximum is
